@@ -370,7 +370,16 @@ func (y *LeafList) setParent(p Meta) {
 	y.parent = p
 }
 
-var anyType = newType("any")
+// anyType is shared by every anyxml/anydata node of every module, so it is
+// complete from the start and never written while loading.
+var anyType = newAnyType()
+
+func newAnyType() *Type {
+	t := newType("any")
+	t.format = val.FmtAny
+	t.delegate = t
+	return t
+}
 
 type Any struct {
 	ident          string
